@@ -13,11 +13,17 @@
 (*   Transitive       a<b and b<c imply a<c   (checked at the end)          *)
 (*   PermOrder        for permutations: length, then lexicographic          *)
 (*   SortedMonotone   sorted() output is non-decreasing and a rearrangement *)
+(*                    (non-increasing with reverse=True); min() / max()     *)
+(*                    return an element that nothing is below / above       *)
+(*   LookupFindsEqual membership of x in a set/dict built from `present`    *)
+(*                    holds iff some key equal to x is present              *)
+(*   EqualKeysCollapse a set built from a list has one element per Key      *)
+(*   HashStable       re-hashing after other work gives the same hash       *)
 (***************************************************************************)
 EXTENDS Mesh, Json, IOUtils
 CONSTANTS TValues       \* sequence of value records (same shape as in C08_HashOrder)
 Trace == JsonDeserialize(IOEnv.TRACE_FILE)
-VARIABLES l, bad, lt
+VARIABLES l, bad, lt, gts
 Ev == Trace[l]
 Flag(clause) == Append(bad, [i |-> l, clause |-> clause])
 MeshKinds == {"MeshPatt", "BivincularPatt", "VincularPatt", "CovincularPatt"}
@@ -29,7 +35,7 @@ Key(v) == IF v.kind = "Perm" THEN <<"perm", v.p, {}>>
 V(i) == TValues[i]
 Comparable(a, b) == (V(a).kind = "Perm" /\ V(b).kind = "Perm") \/ (V(a).kind \in MeshKinds /\ V(b).kind \in MeshKinds)
 
-TInit == l = 1 /\ bad = <<>> /\ lt = {}
+TInit == l = 1 /\ bad = <<>> /\ lt = {} /\ gts = {}
 FirstBad(e) ==
     LET a == e.a  b == e.b  keq == Key(V(a)) = Key(V(b)) IN
     IF e.eq # keq THEN "EqIsKeyEq"
@@ -44,6 +50,7 @@ FirstBad(e) ==
 TRel == /\ Ev.op = "Rel"
         /\ bad' = IF FirstBad(Ev) = "ok" THEN bad ELSE Flag(FirstBad(Ev))
         /\ lt' = IF Ev.defined /\ Ev.lt THEN lt \cup {<<Ev.a, Ev.b>>} ELSE lt
+        /\ gts' = IF Ev.defined /\ Ev.gt THEN gts \cup {<<Ev.a, Ev.b>>} ELSE gts
 \* after all pairs: a>b iff b<a, trichotomy across the pair, transitivity
 TClose == /\ Ev.op = "Close"
           /\ LET N == Len(TValues)
@@ -52,15 +59,32 @@ TClose == /\ Ev.op = "Close"
                            IF keq THEN pr \notin lt /\ <<pr[2], pr[1]>> \notin lt
                            ELSE (pr \in lt) # (<<pr[2], pr[1]>> \in lt)
                  trans == \A pr \in lt : \A c \in 1..N : <<pr[2], c>> \in lt => <<pr[1], c>> \in lt
-             IN bad' = IF ~tri THEN Flag("Trichotomy") ELSE IF ~trans THEN Flag("Transitive") ELSE bad
-          /\ UNCHANGED lt
+                 conv == \A pr \in cmp : (pr \in gts) = (<<pr[2], pr[1]>> \in lt)        \* a > b iff b < a
+             IN bad' = IF ~tri THEN Flag("Trichotomy") ELSE IF ~trans THEN Flag("Transitive")
+                       ELSE IF ~conv THEN Flag("OperatorsAgree") ELSE bad
+          /\ UNCHANGED <<lt, gts>>
 TSorted == /\ Ev.op = "Sorted"
            /\ LET inp == Ev.inp  out == Ev.out IN
               bad' = IF Len(inp) = Len(out)
                         /\ \A k \in 1..Len(TValues) : Cardinality({i \in DOMAIN inp : inp[i] = k}) = Cardinality({i \in DOMAIN out : out[i] = k})
-                        /\ \A i \in 1..(Len(out) - 1) : <<out[i + 1], out[i]>> \notin lt
+                        /\ \A i \in 1..(Len(out) - 1) : IF Ev.rev THEN <<out[i], out[i + 1]>> \notin lt ELSE <<out[i + 1], out[i]>> \notin lt
                      THEN bad ELSE Flag("SortedMonotone")
-           /\ UNCHANGED lt
-TNext == l <= Len(Trace) /\ l' = l + 1 /\ (TRel \/ TClose \/ TSorted)
+           /\ UNCHANGED <<lt, gts>>
+TExtreme == /\ Ev.op = "Extreme"
+            /\ LET inp == Ev.inp IN
+               bad' = IF /\ \E i \in DOMAIN inp : inp[i] = Ev.out
+                         /\ \A i \in DOMAIN inp : IF Ev.which = "min" THEN <<inp[i], Ev.out>> \notin lt ELSE <<Ev.out, inp[i]>> \notin lt
+                      THEN bad ELSE Flag("SortedMonotone")
+            /\ UNCHANGED <<lt, gts>>
+TLookup == /\ Ev.op = "Lookup"
+           /\ bad' = IF Ev.found = (\E j \in DOMAIN Ev.present : Key(V(Ev.present[j])) = Key(V(Ev.x))) THEN bad ELSE Flag("LookupFindsEqual")
+           /\ UNCHANGED <<lt, gts>>
+TDistinct == /\ Ev.op = "Distinct"
+             /\ bad' = IF Ev.n = Cardinality({Key(V(Ev.inp[i])) : i \in DOMAIN Ev.inp}) THEN bad ELSE Flag("EqualKeysCollapse")
+             /\ UNCHANGED <<lt, gts>>
+TRehash == /\ Ev.op = "Rehash"
+           /\ bad' = IF Ev.same THEN bad ELSE Flag("HashStable")
+           /\ UNCHANGED <<lt, gts>>
+TNext == l <= Len(Trace) /\ l' = l + 1 /\ (TRel \/ TClose \/ TSorted \/ TExtreme \/ TLookup \/ TDistinct \/ TRehash)
 TraceDone == l = Len(Trace) + 1 => PrintT(ToJson([verdict |-> bad, drift |-> <<>>, n |-> Len(Trace)]))
 =============================================================================
